@@ -21,6 +21,18 @@ def gen(rng, tier, boost):
         w = rng.randrange(4)
         cases.append("P %d %s" % (w, fmt_list(jc.gen_text(rng, w))))
         dist["random_text"] += 1
+    # every kind of lexical token as the LAST units of the buffer (the case split of every look-ahead):
+    # all prefixes of each token, bare and inside open containers
+    toks = ["0", "-0", "7", "1.0", "7.0", "-3.0", "10.00", "0.0", "0.5", "1.", "1.5e", "1.5e+", "1.5e+3", "2E-", "2E-0", "1e5", "12345678901234567890",
+            "18446744073709551615", "-9223372036854775808", "0x1F", ".5", "+1", "true", "false", "null", "\"abc\"", "\"a\\n\"", "\"\\u0041\"",
+            "\"\\ud83d\\ude00\"", "\"\\", "\"\\u", "\"\\u00", "\"\\ud83d\\u", "\"\\ud83d\\ud", "[]", "{}", "{\"k\":1}", "[1,2]"]
+    ctxs = ["", "[", "[ ", "[1,", "{\"a\":", "{\"a\": ", "[[", "{\"a\":[", " "]
+    for t in toks:
+        for k in range(1, len(t) + 1):
+            for c in ctxs:
+                w = rng.randrange(4)
+                cases.append("P %d %s" % (w, fmt_list(jc.asc(c + t[:k]))))
+                dist["token_at_end"] = dist.get("token_at_end", 0) + 1
     ndoc = (300 if tier == "quick" else 8000) * boost
     for _ in range(ndoc):
         w = rng.randrange(4)
